@@ -403,7 +403,7 @@ func (r *Run) absorbRaceLog() {
 				inStack = false
 			case inStack && !strings.HasPrefix(t, "/") && strings.Contains(t, "("):
 				fn := t
-				if i := strings.Index(fn, "("); i > 0 {
+				if i := strings.LastIndex(fn, "("); i > 0 {
 					fn = fn[:i]
 				}
 				cur = append(cur, fn)
@@ -438,7 +438,10 @@ func (r *Run) absorbRaceLog() {
 			}
 		}
 		sort.Strings(inner)
-		sig := strings.Join(tops, " | ") + " || " + strings.Join(inner, " | ")
+		sig := strings.Join(inner, " | ")
+		if sig == "" {
+			sig = "harness-only: " + strings.Join(tops, " | ")
+		}
 		rep := reports[sig]
 		if rep == nil {
 			txt := lineNoRe.ReplaceAllString(blk, "")
